@@ -10,6 +10,7 @@ import (
 	"os"
 	"path/filepath"
 	"sort"
+	"sync"
 )
 
 // Rand is a splitmix64 PRNG.
@@ -65,6 +66,7 @@ type Out struct {
 	fin, fimp *os.File
 	fnt       *os.File
 	Hist      map[string]int
+	mu        sync.Mutex
 	N         int
 }
 
@@ -93,7 +95,11 @@ func (o *Out) Case(in, impl string, nontrivial bool) {
 	o.N++
 }
 
-func (o *Out) Count(key string) { o.Hist[key]++ }
+func (o *Out) Count(key string) {
+	o.mu.Lock()
+	o.Hist[key]++
+	o.mu.Unlock()
+}
 
 func (o *Out) Close() {
 	must(o.in.Flush())
